@@ -46,7 +46,7 @@ INTERRUPTS = {"kbd": KeyboardInterrupt, "sysexit": SystemExit, "baseexc": Interr
 # Fault menus: kind -> deviation labels (alternative 0, "ok", is implicit).
 MENU_CONN = {
     "connect": ["refused", "timeout"],
-    "sendall": ["reset", "timeout_after", "partial_timeout"],
+    "sendall": ["reset", "timeout_after", "partial_timeout", "eintr_after"],
     "recv": ["timeout", "reset", "eof", "eintr", "short1", "cut_cr"],
     "reply": ["error", "client_error", "server_error", "garbage", "trunc_stall", "trunc_eof", "wrong_key"],
 }
@@ -412,6 +412,9 @@ class SimSocket:
         if c == "timeout_after":
             net.log("sendall_fail", self, "timeout_after", self.timeout)
             raise _realsocket.timeout("timed out")
+        if c == "eintr_after":  # a signal arrives when the request is already on its way
+            net.log("sendall_fail", self, "eintr_after", self.timeout)
+            raise OSError(errno.EINTR, "Interrupted system call")
         if c.startswith("int_after:"):
             net.log("interrupt", self, c)
             raise INTERRUPTS[c[10:]]()
